@@ -20,7 +20,9 @@ CLAIMS = {
         'times, each under minCompactSize 0 / 300 / 128K, the state recovered by a second real NewSnapshotter is compared '
         'by TLC with the expected one and across thresholds; each history is also re-run with minCompactSize placed (from the '
         'log sizes of its uncompacted run) so that a chosen alive / not-alive / clock line is exactly the one that crosses '
-        'the threshold; a separate input class with a member name containing '
+        'the threshold; every snapshot image taken after a shutdown or crash (and, for every fourth history, after every write) is '
+        'also cut at every byte offset inside its last line and each cut must replay to the state of the whole-lines image '
+        '(a torn tail is not a recorded line); a separate input class with a member name containing '
         '"\\nleave\\n" is run and reported (tag nl_name).',
         _TRUST, _TECH, '5 C10',
     ),
